@@ -87,6 +87,11 @@ pub fn check_emitted(acc: &mut Acc, check: &str, s: &dyn Subject, bytes: &[u8], 
         false
     };
     match ref_decode(&ty, bytes) {
+        Err(e) if e.kind == refmodel::ErrKind::Unsupported => {
+            // the model declines to judge (never a verdict about the library)
+            acc.count("model_gap");
+            true
+        }
         Err(e) => fail(acc, "ref_rejects", format!("{:?}: {}", e.kind, e.msg)),
         Ok((wire, used)) => {
             if used != bytes.len() {
